@@ -50,7 +50,7 @@ Definition check (c : case) : bool :=
   | None => false
   end.
 
-Definition prop_check (c : case) : bool := c_consistent c.
+Definition prop_check (c : case) : bool := c_consistent c && check c.
 
 Definition bad_ids (cs : list (N * case)) : list N := map fst (filter (fun p => negb (check (snd p))) cs).
 Definition prop_bad_ids (cs : list (N * case)) : list N := map fst (filter (fun p => negb (prop_check (snd p))) cs).
